@@ -14,5 +14,8 @@ ENGINES = {
     "C14": ("vf.engines.values", {}),
     "C16": ("vf.engines.ops", {}),
     "C17": ("vf.engines.ext", {}),
+    "C13": ("vf.engines.vspaces", {}),
+    "C12": ("vf.engines.containers", {}),
+    "C18": ("vf.engines.checker", {}),
 }
 PROPS = sorted(ENGINES)
